@@ -272,9 +272,10 @@ var c15Faulted = map[string]c15Op{
 	"del":                          {"del1", c15Del(1)},
 }
 
+// (the control plane repeats a deletion that was rejected: "retry-del1" does nothing unless session 1 is still live)
 var c15Followers = []c15Op{
-	{"est4", c15Est(4, 1, c04Peers[1], "")}, {"del4", c15Del(4)},
-	{"est5", c15Est(5, 1, c04Peers[0], c04SDFs[1])}, {"del5", c15Del(5)},
+	{"est4", c15Est(4, 1, c04Peers[1], "")}, {"retry-del1", c15Del(1)},
+	{"est5", c15Est(5, 1, c04Peers[0], c04SDFs[1])}, {"del4", c15Del(4)}, {"del5", c15Del(5)},
 	{"est6", c15Est(6, 2, c04Peers[1], c04SDFs[0])}, {"del6", c15Del(6)},
 }
 
@@ -375,7 +376,7 @@ func TestVerifC15(t *testing.T) {
 	defer res.write(t)
 	res.Rule = "contexts {two sessions with application+session QER (all session meter cells in use), one such session} x faulted operation {establishment with app QER + new peer + new filter, with 2 QERs, " +
 		"with shared peer and shared filter, without QER; Update FAR to a new gNB; deletion} x every Write index k of that operation x failure shape {transport error, per-update P4Runtime error, " +
-		"applied-but-response-lost}, each followed by 3 further establish/delete cycles (application QER, filter, 2 QERs); thorough: additionally every pair (k1,k2) with k2 in the faulted operation or the " +
+		"applied-but-response-lost}, each followed by 3 further establish/delete cycles (application QER, filter, 2 QERs) with a repetition of a rejected deletion after the first of them; thorough: additionally every pair (k1,k2) with k2 in the faulted operation or the " +
 		"followers. Pools shrunk to counters 14, application cells 1..7, session cells 1..4 so that a wrongly recycled or migrated ID collides. distinct_nontrivial = fault cases executed"
 	res.Assumptions = []string{"owners are attributed from switch entries by UE address / TEID of sessions that are live in the model (accepted and not successfully deleted)",
 		"meter pools are shrunk in-package after the real initialisation (the P4Info keeps the shipped sizes)"}
